@@ -7,6 +7,7 @@
 import Bridge.Abs
 import PtaProofs.Lemmas.Builders
 import PtaProofs.Lemmas.AnythingDedup
+import PtaProofs.Lemmas.NoMatchExact
 namespace Pta.C13
 open Pta PtaSpec
 
@@ -42,6 +43,36 @@ theorem no_match (mt : Str → Str → Bool) (g : PGraph Str) (b : Behavior) (di
     (h : ∃ f ∈ subs, f.isRegex = true ∧ ∀ m ∈ g.nodes, mt f.id m = false) :
     matchRule mt g b dir subs objs = .err .impossibleMatch :=
   Pta.no_match_lemma mt g b dir subs objs h
+
+/-- … also in OBJECT position, and whatever the subjects are: `ModuleNameConverter.convert` is applied to the subjects and
+    then to the objects before any query is asked, and it can fail with the no-match error only (`convert_raises_only_no_match`) -/
+theorem no_match_object (mt : Str → Str → Bool) (g : PGraph Str) (b : Behavior) (dir : Bool) (subs objs : List Filter)
+    (h : ∃ f ∈ objs, f.isRegex = true ∧ ∀ m ∈ g.nodes, mt f.id m = false) :
+    matchRule mt g b dir subs objs = .err .impossibleMatch :=
+  Pta.no_match_object_lemma mt g b dir subs objs h
+
+/-- the regex conversion raises nothing but the no-match error -/
+theorem convert_raises_only_no_match (mt : Str → Str → Bool) (mods : List Str) (fs : List Filter) (k : ErrKind)
+    (h : convertFilters mt mods fs = .error k) : k = .impossibleMatch :=
+  Pta.convertFilters_error_kind mt mods fs k h
+
+/-- which error wins: a regex without a match anywhere in the rule (subject or object position) raises the no-match error
+    even when the rule ALSO mentions a module name absent from the graph (the hypotheses of `unknown_name` may hold at the
+    same time) — the names are looked up by the queries only, after both conversions -/
+theorem no_match_wins_over_unknown_name (mt : Str → Str → Bool) (g : PGraph Str) (b : Behavior) (dir : Bool)
+    (subs objs : List Filter)
+    (h : ∃ f ∈ subs ++ objs, f.isRegex = true ∧ ∀ m ∈ g.nodes, mt f.id m = false) :
+    matchRule mt g b dir subs objs = .err .impossibleMatch :=
+  Pta.no_match_either_lemma mt g b dir subs objs h
+
+/-! non-vacuity: the subject `zz` is absent from the graph AND the object regex matches nothing — `ImpossibleMatch`;
+    with a matching regex the same rule raises the lookup error -/
+example : ∃ f ∈ ([.regex "x.*".toList] : List Filter), f.isRegex = true ∧
+    ∀ m ∈ (buildGraph ["p".toList, "q".toList] [] none).nodes, (fun _ _ => false) f.id m = false := by decide
+example : matchRule (fun _ _ => false) (buildGraph ["p".toList, "q".toList] [] none) ⟨true, false, false, false⟩ true
+    [.name "zz".toList] [.regex "x.*".toList] = .err .impossibleMatch := by decide
+example : matchRule (fun _ _ => true) (buildGraph ["p".toList, "q".toList] [] none) ⟨true, false, false, false⟩ true
+    [.name "zz".toList] [.regex "x.*".toList] = .err .lookupError := by decide
 
 /-- finding F-C13b, repaired (`Rule._assert_modules_removed_by_alias_conversion_exist`): for `anything` rules the
     parent/sub-module de-duplication runs on names before any lookup, so an absent name that is a dotted extension of
